@@ -3,8 +3,12 @@ use vstd::prelude::*;
 verus! {
 
 //@include prelude/core.rs
+//@include prelude/str.rs
+//@include prelude/http.rs
 //@include specs/etag_spec.rs
 //@include prelude/slice.rs
+use http::{HeaderMap, HeaderName, HeaderValue, HV};
+use http::header;
 use etag_spec::first_at;
 use sl::*;
 broadcast use sl::slice_len_bound;
@@ -39,6 +43,32 @@ fn validate_path(path: &[u8]) -> (r: Result<(), &'static str>)
 //@ loop 1: invariant /*@C19 #inv_no_dotdot_before*/ has_dotdot_segment(path@) == has_dotdot_segment(left@), decreases left@.len(),
 //@ after "loop {": proof { crate::etag_spec::lemma_first_at_bounds(left@, 0, 0x2fu8); }
 //@end
+
+// ---- src/dir.rs: Node (what `FsDir::get` returns): encoding reporting (last clause of C19) ----
+pub struct FileStub;
+pub struct MetaStub;
+//@item src/dir.rs :: struct Node rules=T_node
+impl Node {
+    //@fn src/dir.rs :: impl Node :: fn encoding props=C19
+    fn encoding(&self) -> (r: Option<&'static str>)
+        ensures /*@C19 #encoding_is_gzip_iff_substituted*/ self.is_gzipped ==> (r matches Some(e) && e@ == "gzip"@), !self.is_gzipped ==> r.is_none(),
+    //@body
+    //@end
+
+    //@fn src/dir.rs :: impl Node :: fn encoding_varies props=C19
+    fn encoding_varies(&self) -> (r: bool)
+        ensures /*@C19 #varies_iff_auto_gzip*/ r == self.auto_gzip,
+    //@body
+    //@end
+
+    //@fn src/dir.rs :: impl Node :: fn add_encoding_headers props=C19
+    fn add_encoding_headers(&self, hdrs: &mut HeaderMap)
+        ensures /*@C19 #encoding_headers*/ final(hdrs).inserted@ =~= {
+            let a = if self.is_gzipped { old(hdrs).inserted@.insert(HeaderName::CONTENT_ENCODING, HV::Static("gzip"@)) } else { old(hdrs).inserted@ };
+            if self.auto_gzip { a.insert(HeaderName::VARY, HV::Static("accept-encoding"@)) } else { a } },
+    //@body
+    //@end
+}
 
 //@lits
 //@canary_false
